@@ -24,10 +24,27 @@ import (
 // The oracle is a wire-level ledger: it only knows what the replies said.
 
 type dhcpCfg struct {
-	Net   int    `json:"net"`   // index into dNets
-	Mode  int    `json:"mode"`  // 1 primary, 2 secondary, 3 secondary-nice
-	File  string `json:"file"`  // lease file ("" = no persistence)
-	Quiet bool   `json:"quiet"` // unused
+	Net   int    `json:"net"`           // index into dNets
+	Mode  int    `json:"mode"`          // 1 primary, 2 secondary, 3 secondary-nice
+	File  string `json:"file"`          // lease file ("" = no persistence)
+	Quiet bool   `json:"quiet"`         // unused
+	DNS   int    `json:"dns,omitempty"` // configured DNS server: 0 = 8.8.4.4, 1 = 9.9.9.9
+	NF    int    `json:"nf,omitempty"`  // netfilter prefix: 0 = the net's own, 1 = same gateway address, one bit longer mask
+}
+
+func (c dhcpCfg) dns() netip.Addr {
+	if c.DNS == 1 {
+		return netip.MustParseAddr("9.9.9.9")
+	}
+	return netip.MustParseAddr("8.8.4.4")
+}
+
+func (c dhcpCfg) netfilter() netip.Prefix {
+	n := dNets[c.Net].netfilter
+	if c.NF == 1 {
+		return netip.PrefixFrom(n.Addr(), n.Bits()+1)
+	}
+	return n
 }
 
 var dNets = []struct {
@@ -178,8 +195,7 @@ type dhcpEnv struct {
 
 func newDHCPEnv(c dhcpCfg) (*dhcpEnv, error) {
 	s, conn := newSession(c.nic())
-	n := dNets[c.Net]
-	h, err := dhcp4.Config{Mode: dhcp4.Mode(c.Mode), NetfilterIP: n.netfilter, DNSServer: netip.MustParseAddr("8.8.4.4"), LeaseFilename: c.File}.New(s)
+	h, err := dhcp4.Config{Mode: dhcp4.Mode(c.Mode), NetfilterIP: c.netfilter(), DNSServer: c.dns(), LeaseFilename: c.File}.New(s)
 	if err != nil {
 		closeSession(s)
 		return nil, err
@@ -196,9 +212,9 @@ func (e *dhcpEnv) close() {
 func (c dhcpCfg) subnet(captured bool) (lan netip.Prefix, gw netip.Addr, dns netip.Addr) {
 	n := dNets[c.Net]
 	if captured {
-		return n.netfilter.Masked(), n.netfilter.Addr(), netip.MustParseAddr("1.1.1.3")
+		return c.netfilter().Masked(), c.netfilter().Addr(), netip.MustParseAddr("1.1.1.3")
 	}
-	return n.home, n.router, netip.MustParseAddr("8.8.4.4")
+	return n.home, n.router, c.dns()
 }
 
 func bcastOf(p netip.Prefix) netip.Addr {
@@ -346,7 +362,7 @@ func runDHCPOn(tb drv.TB, rec *drv.Rec, sub string, h dhcpHistory, or dhcpOracle
 				return n.host
 			case "othersubnet": // inside the home LAN but outside the captured subnet (or the reverse)
 				for ip := n.home.Addr().Next(); n.home.Contains(ip) && ip != bcastOf(n.home); ip = ip.Next() {
-					if n.netfilter.Masked().Contains(ip) == captured || ip == n.host || ip == n.router {
+					if h.Cfg.netfilter().Masked().Contains(ip) == captured || ip == n.host || ip == n.router {
 						continue
 					}
 					if _, held := led.holder[ip]; !held {
@@ -380,7 +396,9 @@ func runDHCPOn(tb drv.TB, rec *drv.Rec, sub string, h dhcpHistory, or dhcpOracle
 			case "discover":
 				xid = [4]byte{0xd0, byte(ident), byte(op.XID), 1}
 				led.lastXID[ident] = xid
-				led.drop(ident) // a client sends DISCOVER from the INIT state only: it no longer uses its previous address
+				if os.Getenv("VERIF_C11_STRICT") == "" {
+					led.drop(ident) // a client sends DISCOVER from the INIT state only: it no longer uses its previous address
+				}
 				m.Options = append(m.Options, ref.DHCPOpt{Code: 53, Data: []byte{1}})
 				if reqIP.IsValid() {
 					m.Options = append(m.Options, ref.DHCPOpt{Code: 50, Data: reqIP.AsSlice()})
